@@ -22,8 +22,11 @@ package fs
 //@   pure
 // File-system writes used by callers under contract: opaque.
 //@ assume func (PathHasher).MoveHash
+// (they change the file system, which is not part of the modelled state, and no Go heap)
 //@ assume func RemoveAll
+//@   modifies nothing
 //@ assume func RecursiveCopy
+//@   modifies nothing
 
 // ---------------------------------------------------------------------------------------------
 // glob() filtering (C21)
